@@ -216,6 +216,8 @@ def request_catalogue():
     out.append(('ctxfrozen', '/ctxfrozen', 'GET', '', b''))
     out.append(('textchunks', '/textchunks', 'GET', '', b''))
     out.append(('noctype', '/noctype', 'GET', '', b''))
+    for lbl, pth in (('noctype', '/noctype'), ('resp-kb', '/resp'), ('resp-binary', '/resp'), ('nocontent', '/nocontent'), ('ctx-kb', '/ctx')):
+        out.append((lbl + '@msie', pth, 'GET', 'b=binary' if 'binary' in lbl else 'b=kb', b''))
     out.append(('nocontent', '/nocontent', 'GET', '', b''))
     out.append(('ctxlist', '/ctxlist', 'GET', '', b''))
     out.append(('ctxstr', '/ctxstr', 'GET', '', b''))
@@ -284,6 +286,8 @@ COOKIE_HDRS['cookie-nonascii-key-404'] = COOKIE_HDRS['cookie-nonascii-key']
 
 def call(app, path, method, query, ae, body, rlabel=None):
     hdrs = {}
+    if rlabel and rlabel.endswith('@msie'):
+        hdrs['User-Agent'] = 'Mozilla/4.0 (compatible; MSIE 8.0; Windows NT 6.1)'      # the gzip middleware looks at it
     if rlabel in COOKIE_HDRS:
         hdrs['Cookie'] = COOKIE_HDRS[rlabel]
     if ae is not None:
@@ -307,7 +311,7 @@ def check_stack(acc, stack, baseline_app, cache):
     for rlabel, path, method, qx, body in itertools.chain(*passes):
         for q in QUERIES:
             query = '&'.join(x for x in (qx, q) if x)
-            aes = AE if (rlabel.startswith('resp-') or rlabel.startswith('ctx-') or rlabel in ('raise4', 'ret4', 'fallthrough', 'stream', 'deflated', 'redirector')) else AE[:3]
+            aes = AE if (rlabel.startswith('resp-') or rlabel.startswith('ctx-') or rlabel.endswith('@msie') or rlabel in ('raise4', 'ret4', 'fallthrough', 'stream', 'deflated', 'redirector')) else AE[:3]
             if q and not rlabel.startswith('resp-k'):
                 aes = aes[:2]
             for ae in aes:
